@@ -411,9 +411,16 @@ pub fn run(ctx: &Ctx) -> Coverage {
     let depth = ctx.tier.pick(6, 10);
     let gs = grammars(ctx.quick());
     ctx.note(format!("{} token-reference grammars", gs.len()));
-    gs.par_iter().for_each(|g| run_grammar(ctx, g, &vocab, depth));
+    let guarded_run = |g: &SpecGrammar, v: &VocabSpec| {
+        if ctx.over_budget() {
+            ctx.count("grammars_skipped_budget", 1);
+            return;
+        }
+        run_grammar(ctx, g, v, depth)
+    };
+    gs.par_iter().for_each(|g| guarded_run(g, &vocab));
     let vcanon = c19_vocab_canon();
-    gs.par_iter().for_each(|g| run_grammar(ctx, g, &vcanon, depth));
+    gs.par_iter().for_each(|g| guarded_run(g, &vcanon));
     // JSON / regex text grammars: no special token, no bare marker anywhere
     let text_grammars = vec![
         GrammarSpec::Json(json!({"type": "string", "maxLength": 3})),
